@@ -477,18 +477,7 @@ def check():
                 if p.kind == "return":
                     structural("Workspace::diagnostics: the initial entry of a document is the empty list",
                                ms.proj(p.ret, ("f", 1), E)[0] == "app" and "Default::default" in ms.proj(p.ret, ("f", 1), E)[1])
-        # open / close keep the document store in step
-        ex = mirlib.executor([ML])
-        for p in ex.run(f_opn, arg_names=["self", "p"]):
-            if p.kind == "return":
-                ins = [e for e in p.calls() if e[1] == "HashMap::insert"]
-                structural("Workspace::open: stores the announced text under the document's locator",
-                           len(ins) == 1 and ins[0][2][0] == docs and any(t[0] == "fld" for t in ms.subterms(ins[0][2][2])))
-        ex = mirlib.executor([ML])
-        for p in ex.run(f_cls, arg_names=["self", "p"]):
-            if p.kind == "return":
-                rm = [e for e in p.calls() if e[1] == "HashMap::remove"]
-                structural("Workspace::close: forgets the document", len(rm) == 1 and rm[0][2][0] == docs)
+        store_lemmas(o, ML, E, structural, (f_opn, f_cls))
     except KeyError as e:
         o.inconc(str(e))
 
@@ -562,6 +551,31 @@ def check():
 
 
 _cf = {}
+
+
+def store_lemmas(o, ML, E, structural, fs=None):
+    """open / close keep the document store in step with what the client announced (shared with C13: "the same sources" of the
+    language server are the open buffers over the files on disk - a closed document is the file again)."""
+    if fs is None:
+        fs = (ML.one(r"lsp::<impl[^>]*>::open$"), ML.one(r"lsp::<impl[^>]*>::close$"))
+        o.functions.extend(mirlib.func_ref(f, "oal-client") for f in fs)
+    f_opn, f_cls = fs
+    docs = ("addr", ms.proj(("deref", ("sym", "self")), ("f", 0), E))
+    ex = mirlib.executor([ML])
+    for p in ex.run(f_opn, arg_names=["self", "p"]):
+        if p.kind == "return":
+            ins = [e for e in p.calls() if e[1] == "HashMap::insert"]
+            structural("Workspace::open: stores the announced text under the document's locator",
+                       len(ins) == 1 and ins[0][2][0] == docs and any(t[0] == "fld" for t in ms.subterms(ins[0][2][2])))
+    ex = mirlib.executor([ML])
+    n = 0
+    for p in ex.run(f_cls, arg_names=["self", "p"]):
+        if p.kind == "return":
+            n += 1
+            rm = [e for e in p.calls() if e[1] == "HashMap::remove"]
+            structural("Workspace::close: forgets the document (on every path)", len(rm) == 1 and rm[0][2][0] == docs)
+    if n == 0:
+        o.inconc("Workspace::close: no returning path")
 
 
 def change_fields(ML):
